@@ -17,6 +17,7 @@ import (
 	"github.com/massnetorg/mass-core/wire"
 	"massnet.org/mass-wallet/config"
 	mwdb "massnet.org/mass-wallet/masswallet/db"
+	"vh/enum"
 	"vh/env"
 	"vh/inst"
 	"vh/simnode"
@@ -66,7 +67,11 @@ type World struct {
 	S2Pk        []byte // second stranger script (double-spend destination)
 	led         *Ledger
 	ledTip      wire.Hash
+	refC        *enum.RefWallet
 	Pend        *PendingRef
+	BReimported bool
+	statusCache map[string]string
+	Restarts    int
 	Relayed     []*wire.MsgTx
 	RelayedKind []string
 	// HandlerErrs collects errors returned by the handler entry points (handle() only logs them).
@@ -144,7 +149,15 @@ func New(dir string, opt Options) (*World, error) {
 		p = int(opt.Cons.CoinbaseMaturity)
 	}
 	for k := 0; k < p; k++ {
-		if _, err := n.Extend([]*wire.MsgTx{w.strangerCoinbase(n.Height() + 1)}); err != nil {
+		txs := []*wire.MsgTx{w.strangerCoinbase(n.Height() + 1)}
+		if p >= 10 && k == 5 {
+			// long prefixes carry early history of the external wallet C, so that a later
+			// restore has activity in its FIRST rescan batch as well
+			if ptx, ok := w.payCContent(1, w.Ledger()); ok {
+				txs = ptx
+			}
+		}
+		if _, err := n.Extend(txs); err != nil {
 			return nil, err
 		}
 		if err := w.Deliver(); err != nil {
@@ -212,7 +225,9 @@ func (w *World) strangerCoinbase(height uint64) *wire.MsgTx {
 
 // Close releases node and wallet databases (no goroutines are running in direct mode).
 func (w *World) Close() {
-	w.I.CloseRaw()
+	if w.I != nil && w.I.Raw != nil {
+		w.I.CloseRaw()
+	}
 	w.N.Close()
 }
 
@@ -285,8 +300,21 @@ func (w *World) NextSpendable(c *Coin, l *Ledger) bool {
 // Restart drops the wallet manager and every volatile structure and reopens the same
 // wallet database the way loader.openWallet does (goroutines are not started in direct mode).
 func (w *World) Restart() error {
-	w.I.CloseRaw()
+	if w.I.Raw != nil {
+		w.I.CloseRaw()
+	}
 	i, err := inst.OpenAt(w.I.Store, w.N, w.Opt.Gap, inst.PubPass, w.Opt.Wrap)
+	if err != nil {
+		return err
+	}
+	w.I = i
+	w.Restarts++
+	return nil
+}
+
+// ReopenAfterStop reopens the wallet database after WalletManager.Stop closed it.
+func (w *World) ReopenAfterStop() error {
+	i, err := inst.OpenAt(w.I.Store, w.N, w.Opt.Gap, inst.PubPass, nil)
 	if err != nil {
 		return err
 	}
